@@ -327,6 +327,9 @@ pub fn run(ctx: &Ctx) -> i32 {
     let engine = NetEngine { prop };
     if let Some(path) = &ctx.replay {
         return match read_replay(path).and_then(|rf| {
+            if rf.engine == "socksrv" {
+                return replay_one(ctx, &crate::engines::socksrv::SockEngine, &rf);
+            }
             if std::env::var_os("VERIF_TRACE").is_some() {
                 if let Ok(case) = serde_json::from_value::<NetCase>(rf.case.clone()) {
                     println!("{:#?}", run_net_case(&case));
@@ -389,9 +392,12 @@ pub fn run(ctx: &Ctx) -> i32 {
         }
         _ => {
             total.merge(run_generated(ctx, &engine, "fault-sequences", move || c09_strategy(max_reqs.min(8)), ctx.cases(30_000, 1_500_000), 300));
+            // real TCP / Unix acceptors (real time): reset or close before accept, garbage, truncation
+            let sctx = Ctx { threads: 8, ..ctx.clone() };
+            total.merge(run_generated(&sctx, &crate::engines::socksrv::SockEngine, "tcp-unix-acceptors", crate::engines::socksrv::strategy, ctx.cases(400, 20_000), 60));
             (
                 "same simulation as C01 plus 1-5 per-connection faults at generated instants (cancelled connect before the acceptor acknowledged it, immediate disconnect, garbage bytes, truncated head, truncated body, disconnect mid response, partial h2 preface) and handlers returning errors, interleaved with well-behaved requests on other connections. Checked after the horizon: every serving future is still pending, a fresh well-behaved probe client is served by every server, and every well-behaved request completed with its correct response. non-trivial = a fault was injected while a well-behaved request was in flight and the probes succeeded; distinct by hash of the case",
-                vec![("fault-injected", 0.9), ("fault-while-request-in-flight", 0.2), ("fault-cancelled-connect", 0.2), ("handler-error", 0.1)],
+                vec![("fault-injected", 0.8), ("fault-while-request-in-flight", 0.2), ("fault-cancelled-connect", 0.2), ("handler-error", 0.1), ("tcp-reset-before-accept", 0.002), ("unix-acceptor", 0.003)],
             )
         }
     };
